@@ -48,6 +48,7 @@ type fixture struct {
 	spaceId    string
 	settingsId string
 	tmpl       map[string][]byte
+	docs       map[string][][]byte                             // every document of the pristine database, by collection
 	roots      map[string]*treechangeproto.RawTreeChangeWithId // by label
 	id         map[string]string                               // label -> id
 	label      map[string]string                               // id -> label (objects, settings records)
@@ -153,6 +154,13 @@ func (f *fixture) makeTemplate(scratch string) error {
 	}
 	_, err = spacestorage.Create(ctxBg, db, f.payload)
 	if err == nil {
+		// what spacestorage.New / headstorage.New add on first open (indexes) belongs to the pristine state too
+		_, err = spacestorage.New(ctxBg, f.spaceId, db)
+	}
+	if err == nil {
+		f.docs, err = dumpDocs(db)
+	}
+	if err == nil {
 		err = db.Flush(ctxBg, 0, anystore.FlushModeCheckpointFull)
 	}
 	if cerr := db.Close(); err == nil {
@@ -186,6 +194,7 @@ func (d *device) create(l, data string, ts int64) error {
 	if err != nil {
 		return err
 	}
+	defer d.drain()
 	tr.Lock()
 	defer tr.Unlock()
 	_, err = tr.AddContent(ctxBg, objecttree.SignableChangeContent{
@@ -199,6 +208,7 @@ func (d *device) localDelete(l string, snapshot bool) error {
 	old := settings.DoSnapshot
 	settings.DoSnapshot = func(int) bool { return snapshot }
 	defer func() { settings.DoSnapshot = old }()
+	defer d.drain()
 	return d.settings.DeleteTree(ctxBg, d.f.id[l])
 }
 
@@ -207,6 +217,7 @@ func peerCtx() context.Context { return peer.CtxWithPeerId(ctxBg, remotePeer) }
 // incoming hands one wire message to the device's object-sync handler the way the sync service does: HandleHeadUpdate,
 // and if that returns a request, ApplyRequest for it (the request queue's job).
 func (d *device) incoming(wire []byte) (huErr, applyErr error, requested bool) {
+	defer d.drain()
 	msg := &spacesyncproto.ObjectSyncMessage{}
 	if err := msg.UnmarshalVT(wire); err != nil {
 		return err, nil, false
@@ -278,7 +289,8 @@ func (f *fixture) runRemotes(scratch string) error {
 			st.Unlock()
 			return err
 		}
-		raws = append(raws, ch.RawTreeChangeWithId())
+		// the storage hands out bytes that alias its parser buffer: copy before the next Get
+		raws = append(raws, &treechangeproto.RawTreeChangeWithId{RawChange: append([]byte{}, ch.RawChange...), Id: ch.Id})
 	}
 	hu, err := synctree.NewRequestFactory(f.spaceId).CreateHeadUpdate(st, "", raws)
 	st.Unlock()
@@ -301,6 +313,14 @@ func (f *fixture) runRemotes(scratch string) error {
 			return err
 		}
 		if ok {
+			// the remote devices are done: release their database files
+			for _, n := range []string{"devA", "devB"} {
+				if sl := slots[n]; sl != nil && sl.db != nil {
+					_ = sl.db.Close()
+					_ = os.RemoveAll(sl.dir)
+				}
+				delete(slots, n)
+			}
 			return nil
 		}
 	}
@@ -321,11 +341,16 @@ func (f *fixture) runB(scratch string, ts int64) (ok bool, err error) {
 		if err = b.create(l, "remote", tsRemote); err != nil {
 			return false, fmt.Errorf("B create %s: %w", l, err)
 		}
-		// PutSyncTree broadcasts the bare root first, AddContent then broadcasts the new change
-		if len(b.net.Broadcasts) != n+2 {
+		// PutSyncTree does not broadcast a bare root; AddContent broadcasts the new change
+		if len(b.net.Broadcasts) != n+1 {
 			return false, fmt.Errorf("B: create %s broadcast %d messages", l, len(b.net.Broadcasts)-n)
 		}
-		msgs["hu:"+l] = b.net.Broadcasts[n+1]
+		msgs["hu:"+l] = b.net.Broadcasts[n]
+		if ids, err := changeIds(msgs["hu:"+l]); err == nil && len(ids) == 1 {
+			f.label[ids[0]] = "r" + l
+		} else {
+			return false, fmt.Errorf("B: head update for %s carries %v (%v)", l, ids, err)
+		}
 	}
 	answers := map[string][][]byte{}
 	for _, l := range objLabels {
